@@ -3,6 +3,7 @@ pub mod chanmodel;
 pub mod oracle;
 pub mod report;
 pub mod rng;
+pub mod sched;
 pub mod snapshot;
 pub mod world;
 
